@@ -109,11 +109,36 @@ type exactness = Exact | MayRound
 
 let rec strip b m = if Zar.sign m <> 0 && Zar.sign (Zar.rem m b) = 0 then strip b (Zar.div m b) else m
 
-(* can sig * sb^exp be written with at most [precd] digits in base bb?  None: not decided here *)
+(* is [a] a proper power of [b]?  (ilog_exact of the code: the lossless shortcuts of convert_base) *)
+let power_of a b = let rec go x = x = a || (x < a && go (x * b)) in b >= 2 && a > b && go (b * b)
+
+(* can sig * sb^exp be written with at most [precd] digits in base bb?  None: not decided here.
+   Decided for the same base and for the two lossless shortcuts of Context::convert_base (one base a proper power of the
+   other: the value is carried over exactly, then rounded to the precision - so it must come back unchanged whenever it
+   fits).  Whether a conversion between unrelated bases is correctly rounded is C06/C08's property, not judged here. *)
 let representable sb (e : frepr) bb precd =
   let bz = Zar.of_int bb in
   if sb = bb then Some (Zar.sign precd = 0 || Zar.leq (ndigits bz (strip bz e.fsig)) precd)
-  else None (* whether a conversion between two bases is correctly rounded is C06's property, not judged here *)
+  else if power_of sb bb || power_of bb sb then begin
+    (* sig * sb^exp = num / den with den | bb^t *)
+    let sz = Zar.of_int sb in
+    let ex = Zar.to_int e.fexp in
+    let num = if ex >= 0 then Zar.mul e.fsig (Zar.pow sz ex) else e.fsig in
+    let den = if ex >= 0 then Zar.one else Zar.pow sz (- ex) in
+    let rec go r t = if Zar.equal r Zar.one then t else go (Zar.div r (Zar.gcd r bz)) (t + 1) in
+    let t = go den 0 in
+    let m = Zar.div (Zar.mul num (Zar.pow bz t)) den in
+    Some (Zar.sign precd = 0 || Zar.leq (ndigits bz (strip bz m)) precd)
+  end else None
+
+let conv_route route =
+  match String.index_opt route '_' with
+  | Some i ->
+      let api = String.sub route 0 i in
+      if api = "wb" || api = "wbp" || api = "tb" || api = "td" then
+        Some (api, int_of_string ("0x" ^ String.sub route (i + 1) (String.length route - i - 1)))
+      else None
+  | None -> None
 
 let expected_value bb ssig sexp prec route p =
   let fits b = (* the source has at most prec digits, so no rounding on the way *)
@@ -127,12 +152,19 @@ let expected_value bb ssig sexp prec route p =
     | "withprec_up" ->
         (* with_precision(prec + p): from unlimited precision (prec = 0) this is a rounding to p digits *)
         if Zar.sign prec <> 0 || Zar.leq (ndigits (Zar.of_int bb) (z ssig)) (usz p) then src bb else None
-    | "withprec" | "addsub0" | "mul1" | "muldiv0" | "convint" -> if fits bb then src bb else None
+    | "withprec" | "addsub0" | "mul1" | "muldiv0" | "convint"
+    | "mulfac" | "muldivx" | "divself" | "sqrsqrt" | "powi1" | "addtrunc" | "addfloor" | "subceil" | "addround" | "splitpoint"
+    | "addfract" | "fromstr" | "ratfloat" -> if fits bb then src bb else None
+    | "fromf64" | "fromf32" | "fromubig" | "fromu64" | "fromi64" -> src bb
+    (* really rounded results: the value is not predicted, the invariants and every comparison are judged *)
+    | "r_add" | "r_sub" | "r_mul" | "r_div" | "r_sqr" | "r_sqrt" | "r_powi" | "r_inv" | "r_exp" | "r_ln1p" -> None
     | "same_p" -> src ~ex:MayRound bb
     | "from10" | "from10_p" -> src ~ex:MayRound 10
     | "from2" | "from2_p" -> src ~ex:MayRound 2
     | "from16_p" -> src ~ex:MayRound 16
-    | _ -> raise (Bad ("route-" ^ route))
+    | _ -> (match conv_route route with
+            | Some (_, sb) -> src ~ex:MayRound sb
+            | None -> raise (Bad ("route-" ^ route)))
 
 let judge_flt args got =
   let bb = base_of (List.nth args 0) in
